@@ -46,21 +46,21 @@ def mon_c01(run, world=None):
         conf = {}
         for p in world["workers"]:
             for w in p["workers"]:
-                agg = {}
+                tot = {}
                 for r in w["resources"]:
                     n = r["name"].split(":")[0]
-                    agg[n] = agg.get(n, 0) + r["quantity"]
-                conf[w["name"]] = agg
+                    tot[n] = tot.get(n, 0) + r["quantity"]
+                conf[w["name"]] = tot
         for e in run["log"]:
             if e[0] == "cluster":
                 for pool in e[1]:
                     for (wname, res) in pool[2]:
-                        agg = {}
+                        tot = {}
                         for (rn, _i, q) in res:
-                            agg[rn] = agg.get(rn, 0) + q
-                        if wname in conf and agg != conf[wname]:
+                            tot[rn] = tot.get(rn, 0) + q
+                        if wname in conf and tot != conf[wname]:
                             bad.append("worker %s was built with resources %s, the cluster description configures %s"
-                                       % (wname, agg, conf[wname]))
+                                       % (wname, tot, conf[wname]))
     resident = {}          # task -> (worker, request by name)
     for e in run["log"]:
         if e[0] != "worker" or e[5] != "ok":
